@@ -479,3 +479,7 @@ fn c12_twin_must_fail() {
     assert_is_subset(&or, &u, ma | mb);
     assert!(false, "twin: reachability witness");
 }
+
+/// re-export: `term::hpoterm` is a private module, `term::group` is public, so crate-wide users of the
+/// directly constructed `HpoTerm` view go through here
+pub(crate) use crate::term::hpoterm::verif_kani::Parts;
